@@ -45,7 +45,14 @@ def scenario(G, K, mode):
                 sym.assume(False)
             b.note("gen%d: -h %s" % (g, ",".join(req)))
             if mode == "sf":
-                r = b.run("create", root="R", h=req, sf=[frel])
+                # from the second generation on the file may be named the way a shell user names it from inside the folder
+                spell = "plain" if g == 0 else sym.choose("sf_spelling_g%d" % g, ["plain", "./f.txt", "sub/../f.txt"])
+                if spell == "plain":
+                    r = b.run("create", root="R", h=req, sf=[frel])
+                else:
+                    if not b.exists("R/sub"):
+                        b.mkdir("R/sub")
+                    r = b.run("create", root=b.p("R"), cwd="R", h=req, sf=[spell])
             elif mode == "parent-of-nested" and g == 0:
                 r = b.run("create", root="R/A", h=req, n=True)
                 b.require(r.exit == 0, "setup-create", str(r))
